@@ -5,4 +5,4 @@ import sys
 sys.path[:0] = ['/repo' + "/pulser-core", '/repo' + "/pulser-simulation", "/verif"]
 from symx.replay import replay
 sys.exit(replay(check='checks.c09', kernel='atomic', shape={'device': 'virt_maxseq', 'prefix': 'p0', 'ops': ['add_g', 'eom_on']},
-                assignment={'d0': 3925, 'a0': '1/2', 'det0': 2513274120, 'buf#1.start': 0, 'buf#1.end': 1, 'buf#2.start': 0, 'buf#2.end': 0}, label='atomic:eom_on#1'))
+                assignment={'d0': 3925, 'a0': '1/2', 'det0': 0, 'buf#1.start': 0, 'buf#1.end': 1, 'buf#2.start': 0, 'buf#2.end': 0}, label='atomic:eom_on#1'))
